@@ -63,7 +63,7 @@ fn sources() -> HashMap<String, String> {
     m
 }
 
-const TEMPLATES: [&str; 9] = [
+const TEMPLATES: [&str; 11] = [
     "{% include 'p1' %}|{% cycle 'a','b' %}{% cycle 'a','b' %}{% increment c %}{% ifchanged %}x{% endifchanged %}{% ifchanged %}x{% endifchanged %}{% include 'p1' %}",
     "{% for i in (1..3) %}{% render 'p2', v: i %}{% if i == 2 %}{% break %}{% endif %}{% endfor %}{% capture q %}{% include 'p1' %}{% endcapture %}{{ q }}{{ q }}",
     "a{% include 'b1' %}b",
@@ -73,6 +73,10 @@ const TEMPLATES: [&str; 9] = [
     "{% if v %}{% render 'b1' %}{% else %}{% include 'p2' %}{% endif %}",
     "{% assign n = 1 %}{% include 'node' %}",
     "{% assign n = 3 %}{% include 'node' %}|{% render 'node', n: 2 %}",
+    // interrupt-dense: hundreds of break / continue requests per render, so that overlapping renders raise and consume
+    // interrupts at the same time
+    "{% for i in (1..150) %}{% for j in (1..3) %}{% if j == 2 %}{% break %}{% endif %}{{ j }}{% endfor %}.{% endfor %}",
+    "{% for i in (1..150) %}{% for j in (1..3) %}{% if j == 2 %}{% continue %}{% endif %}{{ j }}{% endfor %}{% if i == 149 %}{% break %}{% endif %},{% endfor %}",
 ];
 const PARSE_SOURCES: [&str; 4] = ["{{ a | upcase }}{% if a %}x{% endif %}", "{% if %}", "{% for i in (1..2) %}{{i}}", "plain {{ 'text' }}"];
 
